@@ -6,7 +6,9 @@
 
 use std::cell::RefCell;
 use std::cmp::Ordering;
-use std::collections::{BTreeSet, VecDeque};
+use std::collections::BTreeSet;
+#[cfg(feature = "iterable_populations")]
+use std::collections::VecDeque;
 use std::num::NonZeroUsize;
 
 use ec_core::{
@@ -148,10 +150,51 @@ fn tsize_err(e: &ec_core::operator::selector::tournament::TournamentSizeError, k
 }
 
 /// Container flavours a selector is exercised on.
-pub const CONTAINERS: [&str; 3] = ["vec", "deque", "array"];
+pub const CONTAINERS: [&str; 4] = ["vec", "deque", "array", "ec"];
+
+/// the repository's own individual type: `EcIndividual` with a genome SHARED by every other
+/// member (equal genomes must not make individuals compare equal) and real `TestResults` of
+/// `Score` / `Error` values; located by address like the probes
+fn select_on_ec(case: &Value, rng: &mut SmallRng) -> Value {
+    use ec_core::individual::ec::EcIndividual;
+    use ec_core::test_results::{Error, Score};
+    let sel = s(&case["sel"]);
+    let error_pol = case.get("pol").is_some_and(|p| p == "error");
+    macro_rules! run {
+        ($wrap:expr, $ty:ty) => {{
+            let pop: Vec<EcIndividual<u8, TestResults<$ty>>> = arr(&case["pop"])
+                .iter()
+                .enumerate()
+                .map(|(k, ind)| {
+                    let vals: Vec<i64> = if sel == "lexicase" { arr(&ind["res"]).iter().map(i).collect() } else { vec![i(&ind["score"])] };
+                    EcIndividual::new((k % 2) as u8, vals.into_iter().map($wrap).collect::<TestResults<$ty>>())
+                })
+                .collect();
+            let loc = |r: &EcIndividual<u8, TestResults<$ty>>| {
+                pop.iter().position(|p| std::ptr::eq(p, r)).map_or(json!({"k": "foreign"}), |k| json!({"k": "member", "i": k + 1}))
+            };
+            let empty = |_e| json!({"k": "empty_population"});
+            match sel {
+                "best" => Best.select(&pop, rng).map_or_else(empty, loc),
+                "worst" => Worst.select(&pop, rng).map_or_else(empty, loc),
+                "random" => Random.select(&pop, rng).map_or_else(empty, loc),
+                "tournament" => {
+                    let k = case.get("k_real").map_or(u(&case["k"]), u) as usize;
+                    Tournament::new(NonZeroUsize::new(k).expect("k >= 1")).select(&pop, rng).map_or_else(|e| tsize_err(&e, k, pop.len()), loc)
+                }
+                _ => Lexicase::new(u(&case["c"]) as usize).select(&pop, rng).map_or_else(|e| lex_err(&e), loc),
+            }
+        }};
+    }
+    guarded(|| if error_pol { run!(Error, Error<i64>) } else { run!(Score, Score<i64>) })
+        .unwrap_or_else(|m| json!({"k": "panic", "msg": m}))
+}
 
 /// One real selection.  Returns {res, touched, cmps}.
 pub fn select_once(case: &Value, container: &str, rng: &mut SmallRng) -> Value {
+    if container == "ec" {
+        return json!({"res": select_on_ec(case, rng), "touched": [], "cmps": []});
+    }
     let sel = s(&case["sel"]);
     let error_pol = case.get("pol").is_some_and(|p| p == "error");
     let pop = make_pop(&case["pop"], error_pol);
@@ -160,6 +203,7 @@ pub fn select_once(case: &Value, container: &str, rng: &mut SmallRng) -> Value {
         macro_rules! on_iterable {
             ($selector:expr, $err:expr) => {{
                 match container {
+                    #[cfg(feature = "iterable_populations")]
                     "deque" => {
                         let p: VecDeque<Probe> = pop.iter().cloned().collect();
                         match $selector.select(&p, rng) { Ok(r) => locate(p.iter(), r), Err(e) => $err(e) }
@@ -323,6 +367,30 @@ pub fn trace(args: &[String]) -> i32 {
     let mut out = Out::create(arg_req(args, "--out"));
     for run in first..first + runs {
         let mut rng = run_rng(seed, 0xC06, run);
+        if run % 120 == 7 {
+            // a LARGE population whose only extreme members sit at a chosen position (first, last,
+            // around 256 / 1024): best, worst, whole-population and small tournaments
+            let n = [257usize, 1000, 1024, 1030, 1279][rng.random_range(0..5)];
+            let spots = [0usize, 1, 255, 256, 511, n / 2, n - 2, n - 1];
+            let (hi, mut lo) = (spots[rng.random_range(0..8)].min(n - 1), spots[rng.random_range(0..8)].min(n - 1));
+            if lo == hi {
+                lo = (hi + 1) % n;
+            }
+            let pop: Vec<Value> = (0..n).map(|i| json!({"score": if i == hi { 9 } else if i == lo { -9 } else { rng.random_range(0..3) }, "res": []})).collect();
+            let case = match rng.random_range(0..4) {
+                0 => json!({"sel": "best", "pop": pop}),
+                1 => json!({"sel": "worst", "pop": pop}),
+                2 => json!({"sel": "tournament", "k": n, "pop": pop}),
+                _ => {
+                    let k = if rng.random() { 2 } else { n - 1 };
+                    json!({"sel": "tournament", "k": k, "pop": pop})
+                }
+            };
+            let ob = select_once(&case, "vec", &mut rng);
+            out.line(&json!({"ev": "select", "run": run, "case": case, "container": "vec",
+                             "res": ob["res"], "touched": ob["touched"], "cmps": ob["cmps"]}));
+            continue;
+        }
         let (pop, m) = random_pop(&mut rng, 9, 5);
         let n = arr(&pop).len();
         let case = match rng.random_range(0..10) {
